@@ -29,3 +29,24 @@ package main
 //@              strAtoiOK(csvRow[cfg.srcCols[k]]) && sqlRow[k] == int64(strAtoi(csvRow[cfg.srcCols[k]]))
 //@   loop 1 invariant forall k int :: 0 <= k && k <= rangeindex && csvRow[cfg.srcCols[k]] != "\\N" && cfg.colTypes[k] == storage.TypeVarchar ==> sqlRow[k] == csvRow[cfg.srcCols[k]]
 //@   loop 1 invariant forall k int :: 0 <= k && k <= rangeindex && csvRow[cfg.srcCols[k]] != "\\N" && cfg.colTypes[k] == storage.TypeBoolean ==> typeof(sqlRow[k]) == typ(bool)
+
+// doBatchInsert: the largest source index is computed over the VALUES of cfg.srcCols, so that the one length test the
+// reader goroutine makes per record (maxCsvIdx < len(csvRow)) establishes csvToSql's index precondition for every mapped column.
+//@ func doBatchInsert(rm engine.RelationManager, cfg importCfg, r io.Reader) (chan bool, chan error)
+//@   props C19
+//@   requires txn == 0 && nonNilPtr(rm) && len(cfg.colTypes) >= len(cfg.srcCols)
+//@   requires forall i int :: 0 <= i && i < len(cfg.srcCols) ==> 0 <= cfg.srcCols[i]
+//@   modifies txn, storeState, walFlushes, entryCount, seq, rowsApplied, allelems(string), all(sql.InsertColumnsAndSource.QueryExpression)
+//@   loop 1 invariant [max; C19] forall k int :: 0 <= k && k <= rangeindex ==> cfg.srcCols[k] <= maxCsvIdx
+
+//@ func newErrMalformedRow(msg string, line int, record []string) error
+//@   props C19
+//@   modifies nothing
+//@   ensures result != nil
+
+//@ func doBatchInsert$1()
+//@   props C19
+//@   requires txn == 0 && nonNilPtr(rm) && csvRead != nil && len(cfg.colTypes) >= len(cfg.srcCols)
+//@   requires[max; C19] forall i int :: 0 <= i && i < len(cfg.srcCols) ==> 0 <= cfg.srcCols[i] && cfg.srcCols[i] <= maxCsvIdx
+//@   modifies txn, storeState, walFlushes, entryCount, seq, rowsApplied, allelems(string), all(sql.InsertColumnsAndSource.QueryExpression)
+//@   loop 1 invariant txn == 0
